@@ -45,13 +45,9 @@ def gen_parse(rng, hist, window, target, style=None, ll_choices=None, ml_choices
             off = reach - rng.below(min(4, reach))
         else:
             off = rng.choice([1, 2, 3, reach, rng.range(1, reach), rng.range(1, reach), min(reach, rng.range(1, 64))])
+        off = max(1, min(off, reach))
         ml = min(rng.choice(ml_choices), target - len(cur))
-        whole = hist + bytes(cur)
-        start = len(whole) - off
-        m = bytearray()
-        for i in range(ml):
-            m.append((whole + bytes(m))[start + i] if start + i < len(whole) else m[start + i - len(whole)])
-        # (quadratic for long overlaps; lengths here are small)
+        m = fast_copy(hist + bytes(cur), off, ml)
         cur += m
         seqs.append((ll, off, ml))
     return bytes(cur), seqs
